@@ -32,6 +32,20 @@ RULE = ("(a) plaintext correspondence: real opaque tokens of every class are dec
         "and the authenticated client stay refused, and the whole canonical answer equals the answer the same request gets when it runs alone "
         "(a token the request uses up is replaced by a sibling of the same session); the session each answer stands for is compared with "
         "Model/TokenFmt.v run_tflight / tanswer1. "
+        "(f) THE ASKER OF AN INTROSPECTION: the client that introspects a token need not be the client it was minted for. On providers "
+        "with resource servers registered as clients - one with enforce_audience_restriction off, two that tokens' audiences list, one that "
+        "is never admitted, one that switches the restriction on again where the endpoint's own setting is off - and four ways of admitting "
+        "a third party (the asker's registration, the endpoint's setting, a per-client token_args method that adds the client's resource "
+        "servers to the audience, tokens minted through the grant with an explicit audience that may even leave the session's own client out), "
+        "user claims released at introspection by scope and per client from a user database whose answer depends on the client it is asked "
+        "for, opaque and JWT handlers: the access and the refresh token of every live session (two users x two applications among six) is "
+        "introspected by its owner, by every resource server and by another application, with and without release of the username, alone "
+        "and in flight with the owner's request, with third-party requests for other sessions' tokens, with the other endpoints, and among "
+        "wrong-class / altered / other-instance values presented by third parties. Oracle: whoever asks, every statement of an active answer "
+        "(client_id, sub, username, scope, aud, exp, iat, iss, token_type, every user claim) is that of the token and the session on record "
+        "it was minted for, the answer equals the answer the token's own client gets for the same value (says and body, nothing excepted), "
+        "an asker the configured audience rule does not admit gets no active answer; who is answered at all and with which session is "
+        "compared with Model/TokenFmt.v may_ask / tprocess (the asker is an argument of the introspection answer there). "
         "A case is one presentation; non-trivial when the presented string derives from a genuine token.")
 ASSUMPTIONS = ["Fernet is an authenticated encryption and JWS signatures are unforgeable (symbolic model); byte-level mutations are exercised on the real libraries",
                "rndstr(32) / uuid values are fresh"]
@@ -963,9 +977,45 @@ def sched_text(sched):
     return ", ".join(out)
 
 
+# THE ASKER OF AN INTROSPECTION.  The client that introspects a token need not be the client the token was minted for: a
+# protected resource that validates the bearer tokens it is handed is a registered client of its own.  Who is answered at
+# all is the audience rule (the endpoint's enforce_audience_restriction, the asker's own registration, the audience on
+# record for the token); what an answer states is the session of the token, whoever asks.  The modes: how a third party
+# comes to be admitted.
+THIRD_MODES = ["open-rs", "endpoint-open", "token-args-aud", "minted-aud"]
+THIRD_ASKERS = ["rs_open", "rs_aud", "rs_aud2", "rs_closed"]
+INTROSPECTION_KEYS = ("active", "scope", "client_id", "username", "token_type", "exp", "iat", "nbf", "sub", "aud", "iss", "jti", "token_class")
+
+
+class PerClientUserInfo:
+    """a user database whose answer depends on the client it is asked for (per-client attribute release): every user has a
+    `website` that names the client"""
+
+    def __init__(self, base):
+        self.base = base
+
+    @staticmethod
+    def website(user_id, client_id):
+        return "https://%s.example.com/~%s" % (client_id, user_id)
+
+    def __call__(self, user_id, client_id, user_info_claims=None):
+        out = dict(self.base(user_id, client_id, user_info_claims))
+        out["website"] = self.website(user_id, client_id)
+        return out
+
+
+def audience_token_args(context, client_id, token_args=None):
+    """a token_args method: the tokens of a client are meant for the client and for the resource servers of its registration"""
+    out = dict(token_args or {})
+    out["aud"] = [client_id] + list(context.cdb[client_id].get("resource_servers", []))
+    return out
+
+
 class TFlights:
-    def __init__(self, ctx, variant):
-        self.ctx, self.variant = ctx, variant
+    def __init__(self, ctx, variant, third=None):
+        self.ctx, self.variant, self.third = ctx, variant, third
+        self.enforce_default = third != "endpoint-open"      # the audience rule as the harness configured it
+        self.enforce = {}
         shared, jwt, idt_alg = variant[:3]
         alias = len(variant) > 3 and variant[3] == "alias"
         jwt_refresh = len(variant) > 4 and variant[4]
@@ -983,6 +1033,11 @@ class TFlights:
                 if name == "token_revocation":
                     cur = spec["kwargs"].get("client_authn_method") or []
                     spec["kwargs"]["client_authn_method"] = list(cur) + [m for m in ("bearer_header",) if m not in cur]
+                if name == "introspection" and third:
+                    # user claims are released at introspection, by scope and per client
+                    spec["kwargs"].update({"enable_claims_per_client": True, "add_claims_by_scope": True, "base_claims": {"website": None}})
+                    if third == "endpoint-open":
+                        spec["kwargs"]["enforce_audience_restriction"] = False
             return conf
         srv.make_server, srv.op_conf = mk, conf_with_bearer
         try:
@@ -992,6 +1047,8 @@ class TFlights:
         finally:
             srv.make_server, srv.op_conf = old, old_conf
         self.userdb = json.load(open(srv.USERS))
+        if third:
+            self._third_setup()
         self.pool = []
         self.foreign = None
         self.cases = []
@@ -1000,6 +1057,52 @@ class TFlights:
     def close(self):
         self.rs.close()
         self.rs2.close()
+
+    def _third_setup(self):
+        """the clients that are no application: resource servers.  rs_open is registered with the audience restriction off;
+        rs_aud / rs_aud2 are admitted where a token's audience lists them; rs_closed never is; with the endpoint's own
+        setting off (endpoint-open) everybody is admitted but the registrations that switch it on again (rs_strict, client_2)"""
+        rs = self.rs
+        cdb = rs.ctx.cdb
+        regs = [("rs_open", False), ("rs_aud", None), ("rs_aud2", None), ("rs_closed", None)]
+        if self.third == "endpoint-open":
+            regs.append(("rs_strict", True))
+            cdb["client_2"]["enforce_audience_restriction"] = True
+            self.enforce["client_2"] = True
+        for cid, e in regs:
+            cdb[cid] = srv.client_record(cid, **({} if e is None else {"enforce_audience_restriction": e}))
+            rs.server.keyjar.add_symmetric(cid, cdb[cid]["client_secret"])
+            if e is not None:
+                self.enforce[cid] = e
+        cdb["client_1"]["add_claims"] = {"always": {"introspection": ["nickname"]}, "by_scope": {"introspection": True}}
+        cdb["client_2"]["add_claims"] = {"always": {"introspection": ["family_name"]}, "by_scope": {"introspection": False}}
+        rs.ctx.userinfo = PerClientUserInfo(rs.ctx.userinfo)
+        if self.third == "token-args-aud":
+            cdb["client_1"]["resource_servers"] = ["rs_aud"]
+            cdb["client_2"]["resource_servers"] = ["rs_aud", "rs_aud2"]
+            rs.ctx.token_args_methods.append(audience_token_args)
+
+    def askers(self):
+        return THIRD_ASKERS + (["rs_strict"] if self.third == "endpoint-open" else [])
+
+    def user_view(self, user, client):
+        """what the user database says about the user when asked for that client"""
+        out = dict(self.userdb[user])
+        if self.third:
+            out["website"] = PerClientUserInfo.website(user, client)
+        return out
+
+    def may_ask(self, q):
+        """the audience rule of the introspection endpoint, from what the harness configured and the audience on record"""
+        if q["spec"]["ep"] != "introspection" or q["tid"] is None:
+            return False
+        if not self.enforce.get(q["by"], self.enforce_default):
+            return True
+        return q["by"] in self.audience(q)
+
+    def audience(self, q):
+        tok = self.rs.tokobj[q["tid"]]
+        return list(tok.resources or self.rs.grants[q["gi"]][1].resources or [])
 
     # ---- sessions and the supply of tokens
     def _login(self, rs, user, client, scope, nonce):
@@ -1027,6 +1130,19 @@ class TFlights:
         gi = self.rs.tok_grant[code]
         f = {"k": k, "user": user, "client": client, "scope": scope, "nonce": nonce, "gi": gi, "sub": self.rs.grants[gi][1].sub,
              "access": t["access_token"], "refresh": t["refresh_token"], "id_token": t["id_token"], "spent_code": code}
+        if self.third == "minted-aud":
+            # the session's access and refresh token are minted through the grant with an explicit audience (what the token
+            # exchange helper and resource indicators do): the client and a resource server, a resource server alone (the
+            # session's own client is then NOT in the audience), the client and two resource servers
+            rs = self.rs
+            aud = [[client, "rs_aud"], ["rs_aud"], [client, "rs_aud", "rs_aud2"]][k % 3]
+            sid, g = rs.grants[gi][0], rs.grants[gi][1]
+            parent = rs.tokobj[t["refresh_token"]]
+            for cls, key in (("access_token", "access"), ("refresh_token", "refresh")):
+                tok = g.mint_token(session_id=sid, context=rs.ctx, token_class=cls, token_handler=rs.sm.token_handler[cls],
+                                   based_on=parent, resources=list(aud))
+                rs.harvest()
+                f[key] = next(i for i in range(len(rs.tokobj) - 1, -1, -1) if rs.tokobj[i] is tok)
         self.pool.append(f)
         return f
 
@@ -1081,7 +1197,12 @@ class TFlights:
                 muts = mutants(random.Random(spec.get("n", 0)), value, rs.tokens[self.pool[(spec["sess"] + 1) % len(self.pool)][cls]] if cls != "code" else None)
                 value = muts[spec.get("n", 0) % len(muts)][1]
                 tid = None
-        by = f["client"] if spec.get("by", "owner") == "owner" else [c for c in sess.CLIENTS if c != f["client"]][spec.get("n", 0) % 2]
+        if spec.get("by", "owner") == "owner":
+            by = f["client"]
+        elif spec["by"] == "other":
+            by = [c for c in sess.CLIENTS if c != f["client"]][spec.get("n", 0) % 2]
+        else:
+            by = spec["by"]          # a named third party (a resource server)
         http_info = {}
         if ep_name == "userinfo":
             ep = rs.ep["userinfo"]
@@ -1182,6 +1303,8 @@ class TFlights:
                     q["answer"] = {"stage": "parse", "status": "err:" + str(p["error"])}
             elif n == 1:
                 kw = {"issue_refresh": True} if q["spec"].get("issue_refresh") else {}
+                if q["spec"]["ep"] == "introspection" and q["spec"].get("release"):
+                    kw["release"] = list(q["spec"]["release"])
                 r = ep.process_request(q["parsed"], **kw)
                 q["result"] = r
                 ra = r.get("response_args", r) if isinstance(r, dict) else r
@@ -1258,11 +1381,11 @@ class TFlights:
         if real_cls not in right_slot:
             ctx.violation("wrong-class-accepted", "%s, %s: a %s is accepted: %r" % (who, how, real_cls, says), rec)
             return
-        if spec["ep"] != "userinfo" and q["by"] != f["client"]:
+        if spec["ep"] != "userinfo" and q["by"] != f["client"] and not self.may_ask(q):
             ctx.violation("resolves-elsewhere", "%s, %s: a token of %s serves %s: %r" % (who, how, f["client"], q["by"], says), rec)
             return
         # an accepted token: user, client and grant are those it was minted for
-        user = self.userdb[f["user"]]
+        user = self.user_view(f["user"], f["client"])
 
         def claims_of(d, skip):
             for k, v in d.items():
@@ -1293,6 +1416,25 @@ class TFlights:
                 wrong.append("scope %r" % says.get("scope"))
             if isinstance(a.get("body"), dict) and {k: a["body"].get(k) for k in ("sub", "client_id", "scope")} != {k: says.get(k) for k in ("sub", "client_id", "scope")}:
                 wrong.append("body %r" % a["body"])
+            # every other statement of the answer is that of the token / the session on record, whoever asks
+            tok = self.rs.tokobj[q["tid"]]
+            for part_name, part in (("", says), ("body ", a.get("body") if isinstance(a.get("body"), dict) else {})):
+                if "aud" in part and sorted(part["aud"] if isinstance(part["aud"], list) else [part["aud"]]) != sorted(self.audience(q)):
+                    wrong.append("%saud %r (on record: %r)" % (part_name, part["aud"], self.audience(q)))
+                if "exp" in part and part["exp"] != tok.expires_at:
+                    wrong.append("%sexp %r" % (part_name, part["exp"]))
+                if "iat" in part and part["iat"] != tok.issued_at:
+                    wrong.append("%siat %r" % (part_name, part["iat"]))
+                if "iss" in part and part["iss"] != self.rs.ctx.issuer:
+                    wrong.append("%siss %r" % (part_name, part["iss"]))
+                if "token_type" in part and part["token_type"] != getattr(tok, "token_type", None):
+                    wrong.append("%stoken_type %r" % (part_name, part["token_type"]))
+                if "username" in part and part["username"] != f["user"]:
+                    wrong.append("%susername %r" % (part_name, part["username"]))
+                if part is says and "username" in (spec.get("release") or []) and "username" not in part:
+                    wrong.append("no username")
+                wrong += ["%sclaim %s=%r (of %s at %s: %r)" % (part_name, k, v, f["user"], f["client"], user.get(k))
+                          for k, v in claims_of(part, INTROSPECTION_KEYS)]
         elif spec["ep"] == "revocation":
             gone = [d[2] for d in a["delta"] if d[1] == "revoked"]
             if any(g["rel"] != "presented" for g in gone):
@@ -1347,6 +1489,8 @@ class TFlights:
         self.ensure_pool(max(len(TF_PAIRS), max(s["sess"] for s in specs) + 2))
         rec = {"kind": "tflight", "variant": list(self.variant), "family": family, "specs": specs, "schedule": list(sched),
                "schedule_text": sched_text(sched)}
+        if self.third:
+            rec["third"] = self.third
         # every request alone (a token that the request uses up is replaced by a sibling of the same session)
         alone = []
         for i, sp in enumerate(specs):
@@ -1378,7 +1522,36 @@ class TFlights:
                 ctx.violation(key, "request %d (%s with the %s of session %d: %s at %s) is answered otherwise in flight [%s] than alone: %s -- alone: %s"
                               % (i, q["spec"]["ep"], q["spec"]["cls"], q["f"]["k"], q["f"]["user"], q["f"]["client"], sched_text(sched),
                                  json.dumps(q["answer"], sort_keys=True)[:700], json.dumps(alone[i]["answer"], sort_keys=True)[:700]), rec)
+        self.compare_askers(alone + qs, rec, sched)
         self.model_case(qs, sched, rec)
+
+    def compare_askers(self, qlist, rec, sched):
+        """whoever asks: the active answers to introspections of ONE value (same release) are the same answer - the one
+        the client the token was minted for gets, when it is among the askers"""
+        ctx = self.ctx
+        groups = {}
+        for q in qlist:
+            a = q["answer"]
+            if q["spec"]["ep"] != "introspection" or not a:
+                continue
+            active = a["status"] == "ok" and bool((a.get("says") or {}).get("active"))
+            if q["genuine"]:
+                kind = "owner" if q["by"] == q["f"]["client"] else "application" if q["by"] in sess.CLIENTS else q["by"]
+                ctx.count("introspection-asker:%s:%s:%s" % (self.third or "default", kind, "active" if active else "inactive"))
+            if active:
+                groups.setdefault((q["value"], tuple(sorted(q["spec"].get("release") or []))), []).append(q)
+        for g in groups.values():
+            ref = next((q for q in g if q["by"] == q["f"]["client"]), g[0])
+            for q in g:
+                if q is ref or q["by"] == ref["by"]:
+                    continue
+                ctx.count("introspection-answers-compared:%s" % ("with-owner" if ref["by"] == ref["f"]["client"] else "third-parties"))
+                for part in ("says", "body"):
+                    if q["answer"].get(part) != ref["answer"].get(part):
+                        ctx.violation("resolves-elsewhere", "the %s of session %d (%s at %s) introspected by %s and by %s [%s]: the answers differ (%s): %s -- %s"
+                                      % (q["spec"]["cls"], q["f"]["k"], q["f"]["user"], q["f"]["client"], q["by"], ref["by"], sched_text(sched), part,
+                                         json.dumps(q["answer"].get(part), sort_keys=True)[:500], json.dumps(ref["answer"].get(part), sort_keys=True)[:500]), rec)
+                        break
 
     # ---- the same flight in the model (Model/TokenFmt.v run_tflight)
     def model_case(self, qs, sched, rec):
@@ -1410,8 +1583,17 @@ class TFlights:
             n = seen.get(i, 0)
             seen[i] = n + 1
             ev.append("%s %s" % (("TvParse", "TvProcess", "TvRespond")[n], coq_nat(i)))
-        term = "(%s, %s, %s, %s, %s)" % (cfg, coq_list([db[g] for g in sorted(db)], "(pystr * sess)"), coq_list(reqs, "tspec"),
-                                         coq_list(ev, "tevent"), coq_list(obs, "(nat * option nat)"))
+        # the audience rule: the endpoint's setting, the registrations that override it, the audience on record for what is introspected
+        auds = {}
+        for q in qs:
+            if q["spec"]["ep"] == "introspection" and q["tid"] is not None and rs.tokobj[q["tid"]].token_class in CLASSES:
+                auds[(q["gi"], MCLS[rs.tokobj[q["tid"]].token_class])] = self.audience(q)
+        ac = "(%s, %s, %s)" % (coq_bool(self.enforce_default),
+                               coq_list(["(%s, %s)" % (coq_str(c), coq_bool(e)) for c, e in sorted(self.enforce.items())], "(pystr * bool)"),
+                               coq_list(["(%s, %s, %s)" % (coq_nat(g), coq_nat(c), coq_list([coq_str(x) for x in a], "pystr"))
+                                         for (g, c), a in sorted(auds.items())], "(nat * nat * list pystr)"))
+        term = "(%s, %s, %s, %s, %s, %s)" % (cfg, coq_list([db[g] for g in sorted(db)], "(pystr * sess)"), ac, coq_list(reqs, "tspec"),
+                                             coq_list(ev, "tevent"), coq_list(obs, "(nat * option nat)"))
         self.cases.append((term, rec))
 
     def check_model(self, label):
@@ -1496,6 +1678,74 @@ class TFlights:
             self.fly(specs, random_interleaving(rng, k, len(TF_STEPS)), "random-%d" % k)
 
 
+    def ispec(self, rng, sess_k, cls, by, release):
+        sp = self.spec(rng, "introspection", sess_k, "own", cls, by=by, authn=rng.choice(["post", "basic"]))
+        if release:
+            sp["release"] = list(release)
+        return sp
+
+    def third_families(self, rng, quick):
+        """introspections by clients that are not the client the token was minted for, tokens of several live sessions (two
+        users x two applications among them), alone and in flight"""
+        n_sess = len(TF_PAIRS)
+        self.ensure_pool(n_sess)
+        every2 = all_interleavings(2, len(TF_STEPS))
+        askers = self.askers() + ["other"]
+        # (1) one token, its owner and somebody else ask: every asker x every session x access / refresh token
+        for k in range(n_sess):
+            for cls in ("access", "refresh"):
+                for by in askers:
+                    rel = rng.choice([None, ["username"]])
+                    specs = [self.ispec(rng, k, cls, "owner", rel), self.ispec(rng, k, cls, by, rel)]
+                    if rng.random() < 0.5:
+                        specs.reverse()
+                    for sched in ([rng.choice(every2)] if quick else every2):
+                        self.fly(specs, sched, "owner-and-third-party")
+        # (2) third parties ask about tokens of two sessions: two users at one application, one user at two applications,
+        #     both different - the sessions 0..4 are diana/client_1, babs/client_1, diana/client_2, dian/client_12, babs/client_2
+        for a, b in ((0, 1), (0, 2), (1, 2), (0, 4), (3, 4)):
+            for rep in range(1 if quick else 4):
+                x, y = rng.choice(self.askers()), rng.choice(self.askers()[:3])
+                rel = rng.choice([None, ["username"]])
+                specs = [self.ispec(rng, a, rng.choice(["access", "refresh"]), x, rel), self.ispec(rng, b, rng.choice(["access", "refresh"]), y, rel)]
+                for sched in (rng.sample(every2, 5) if quick else every2):
+                    self.fly(specs, sched, "two-sessions-third-parties")
+        # (3) one resource server asks about the tokens of several sessions at once
+        for rep in range(2 if quick else 12):
+            by = rng.choice(self.askers()[:3])
+            ks = rng.sample(range(n_sess), 3)
+            specs = [self.ispec(rng, k, rng.choice(["access", "refresh"]), by, ["username"]) for k in ks]
+            self.fly(specs, random_interleaving(rng, 3, len(TF_STEPS)), "one-asker-three-sessions")
+        # (4) a third-party introspection of one session in flight with another endpoint serving another session
+        for ep in ("userinfo", "revocation", "refresh", "code"):
+            for rep in range(1 if quick else 4):
+                a, b = rng.sample(range(n_sess), 2)
+                specs = [self.ispec(rng, a, rng.choice(["access", "refresh"]), rng.choice(self.askers()), None), self.spec(rng, ep, b)]
+                if rng.random() < 0.5:
+                    specs.reverse()
+                for sched in (rng.sample(every2, 3) if quick else every2):
+                    self.fly(specs, sched, "third-party-and-endpoint")
+        # (5) what must stay refused whoever asks: wrong-class, altered, other-instance values presented by third parties
+        for rep in range(6 if quick else 40):
+            a, b = rng.sample(range(n_sess), 2)
+            bad = self.hostile_spec(rng, "introspection", a)
+            if bad.get("by") != "other":
+                bad["by"] = rng.choice(self.askers())
+            specs = [bad, self.ispec(rng, b, rng.choice(["access", "refresh"]), rng.choice(askers), None)]
+            self.fly(specs, rng.choice(every2), "hostile-third-party")
+        # (6) three and four requests, any asker, any endpoint
+        for _ in range(12 if quick else 600):
+            k = rng.choice([3, 3, 4])
+            ss = rng.sample(range(n_sess), k)
+            specs = []
+            for j in range(k):
+                if rng.random() < 0.65:
+                    specs.append(self.ispec(rng, ss[j], rng.choice(["access", "refresh"]), rng.choice(askers + ["owner"]), rng.choice([None, ["username"]])))
+                else:
+                    specs.append(self.spec(rng, rng.choice(TF_ENDPOINTS), ss[j]))
+            self.fly(specs, random_interleaving(rng, k, len(TF_STEPS)), "third-party-random-%d" % k)
+
+
 def copy_info(http_info):
     return json.loads(json.dumps(http_info)) if http_info else {}
 
@@ -1505,6 +1755,16 @@ def flight_oracle(ctx, rng, variant):
     fl = TFlights(ctx, variant)
     try:
         fl.families(rng, ctx.quick)
+        return fl.cases
+    finally:
+        fl.close()
+
+
+def third_party_oracle(ctx, rng, variant, mode):
+    """-> the model cases of the introspections by third parties on this variant, the third parties admitted as `mode` says"""
+    fl = TFlights(ctx, variant, third=mode)
+    try:
+        fl.third_families(rng, ctx.quick)
         return fl.cases
     finally:
         fl.close()
@@ -1535,13 +1795,23 @@ def run(ctx):
         cases += flight_oracle(ctx, rng, variant)
     ctx.coq_check_cases(["Lib.Base", "Lib.PyStr", "Lib.Crypto", "Model.Lv", "Model.TokenFmt"], "tfcase", "chk_tflight", cases,
                         shard=120, label="tflight", diag="diag_tflight")
+    # the asker of an introspection: third parties the audience rule admits (and some it does not), every way of admitting
+    # them, opaque and JWT handlers
+    cases = []
+    for i, variant in enumerate(VARIANTS):
+        for j, mode in enumerate(THIRD_MODES):
+            if ctx.quick and i > 0 and j != i % len(THIRD_MODES) and not (i == 2 and j == 0):
+                continue
+            cases += third_party_oracle(ctx, rng, variant, mode)
+    ctx.coq_check_cases(["Lib.Base", "Lib.PyStr", "Lib.Crypto", "Model.Lv", "Model.TokenFmt"], "tfcase", "chk_tflight", cases,
+                        shard=120, label="tflight_asker", diag="diag_tflight")
 
 
 def replay(ctx, rp):
     case = rp.get("case") or {}
     if case.get("kind") == "tflight":
         # the recorded flight alone, on a fresh provider of the recorded variant
-        fl = TFlights(ctx, tuple(case["variant"]))
+        fl = TFlights(ctx, tuple(case["variant"]), third=case.get("third"))
         try:
             print("replaying flight [%s] of %d requests on variant %r" % (sched_text(case["schedule"]), len(case["specs"]), case["variant"]))
             for i, sp in enumerate(case["specs"]):
